@@ -8,6 +8,7 @@ Anything outside the modelled subset raises Unsupported: the function is then ou
 (reported, never silently skipped).
 """
 import ast
+import os
 import z3
 from fractions import Fraction
 
@@ -78,6 +79,7 @@ class Exec:
         self.static_cls = {}   # local name -> class name (for method resolution)
         self.round_terms = []  # occurrences of round4 for axiom instantiation
         self.pow_terms = []
+        self.mul_terms = []
 
     # ------------------------------------------------------------------ sinks
     def push_frame(self, **kinds):
@@ -177,9 +179,17 @@ class Exec:
             return True
         if z3.is_false(p):
             return False
-        if self.spec or self.pure:
+        if self.spec:
             return False
-        return st.implies(p)
+        r = st.implies(p)
+        if not r and os.environ.get('PYVC_DUMP_UNKNOWN'):
+            sv = z3.Solver()
+            for q in st.pc:
+                sv.add(q)
+            sv.add(z3.Not(p))
+            self._dumpn = getattr(self, '_dumpn', 0) + 1
+            open('/tmp/unk_%d.smt2' % self._dumpn, 'w').write(sv.to_smt2())
+        return r
 
     def is_kind(self, st, v, *kinds):
         a = Z.addr(v)
@@ -212,6 +222,8 @@ class Exec:
             if isinstance(a, VTuple) and isinstance(b, VTuple) and len(a.items) == len(b.items):
                 return z3.And([self.py_eq(st, x, y, node) for x, y in zip(a.items, b.items)])
             raise Unsupported("== on tuples", node)
+        if z3.is_expr(a) and a.sort() != Val:
+            return a == b          # spec-level values of other sorts (key sets, ...)
         both_ref = z3.And(Z.is_ref(a), Z.is_ref(b), Z.addr(a) != Z.addr(b))
         sb = z3.simplify(both_ref)
         if not z3.is_false(sb) and not self.spec:
@@ -228,6 +240,28 @@ class Exec:
         return z3.simplify(z3.If(z3.And(Z.is_intlike(a), Z.is_intlike(b)),
                                  Z.mk_i(fi(Z.ival(a), Z.ival(b))),
                                  Z.mk_r(fr(Z.num(a), Z.num(b)))))
+
+    def real_mul(self, x, y):
+        """real multiplication; abstracted to MUL(x, y) when the contract asks for it and neither side is a literal"""
+        if getattr(self.c, 'nonlinear', 'native') != 'abstract':
+            return x * y
+        sx, sy = z3.simplify(x), z3.simplify(y)
+        if z3.is_rational_value(sx) or z3.is_rational_value(sy) or z3.is_int_value(sx) or z3.is_int_value(sy):
+            return x * y
+        t = Z.MUL(sx, sy)
+        for (x2, y2, t2) in self.mul_terms:
+            if t2.eq(t):
+                return t
+        self.mul_terms.append((sx, sy, t))
+        self.used_assumptions.add('MUL-abstract')
+        return t
+
+    def mul_facts(self):
+        if not self.mul_terms:
+            return []
+        x, y = z3.Reals('x!mul y!mul')
+        t = Z.MUL(x, y)
+        return [Z.forall([x, y], z3.And(Z.mul_facts(x, y, t)), patterns=[t], qid='MUL_facts')]
 
     def lt(self, a, b, strict=True):
         """ordering on numbers extended by +-inf; strings lexicographic"""
@@ -570,8 +604,8 @@ class Exec:
                 self.throw_new(rest, 'TypeError', 'unsupported operands for +')
             return outs
         if isinstance(op, ast.Mult):
-            if self.known(st, bothnum):
-                return [(st, self.num_result(a, b, lambda x, y: x * y, lambda x, y: x * y))]
+            if self.spec or self.known(st, bothnum):
+                return [(st, self.num_result(a, b, lambda x, y: x * y, self.real_mul))]
             # list * int
             if self.known(st, z3.And(self.is_kind(st, a, Z.K_LIST), Z.is_intlike(b))):
                 return [self.replicate(st, a, b)]
@@ -982,12 +1016,58 @@ class Exec:
     def ex_If(self, node, st):
         out = []
         for (s, c) in self.ev(node.test, st):
-            st_t, st_f = self.branch(s, self.truth(s, c))
-            if st_t is not None:
-                out.extend(self.ex(node.body, st_t))
-            if st_f is not None:
-                out.extend(self.ex(node.orelse, st_f))
+            cond = self.truth(s, c)
+            st_t, st_f = self.branch(s, cond)
+            marks = self._sink_marks()
+            res_t = self.ex(node.body, st_t) if st_t is not None else None
+            quiet_t = marks == self._sink_marks()
+            res_f = self.ex(node.orelse, st_f) if st_f is not None else None
+            quiet = quiet_t and marks == self._sink_marks()
+            if quiet and res_t is not None and res_f is not None and len(res_t) == 1 and len(res_f) == 1 \
+                    and not (self.pure or self.spec):
+                m = self.merge_states(s, z3.simplify(cond), res_t[0], res_f[0])
+                if m is not None:
+                    out.append(m)
+                    continue
+            out.extend(res_t or [])
+            out.extend(res_f or [])
         return out
+
+    def _sink_marks(self):
+        return tuple(len(v) for fr in self.frames for v in fr.values())
+
+    def merge_states(self, base, cond, a, b):
+        """join two straight-line branch results into one state (ite on locals and heap fields)"""
+        n0 = len(base.pc)
+        if a.pc[:n0 + 1][:n0] != base.pc[:n0] or b.pc[:n0] != base.pc[:n0]:
+            return None
+        # branch() appended cond / Not(cond) as the first new fact of each side
+        extra_a = a.pc[n0:]
+        extra_b = b.pc[n0:]
+        env = {}
+        for k in set(a.env) | set(b.env):
+            va, vb = a.env.get(k), b.env.get(k)
+            if va is None or vb is None:
+                continue            # bound on one side only: unbound after the join (use is an error)
+            if isinstance(va, (VTuple, Closure)) or isinstance(vb, (VTuple, Closure)):
+                if va is vb:
+                    env[k] = va
+                    continue
+                return None
+            env[k] = va if va.eq(vb) else z3.If(cond, va, vb)
+        upd = {}
+        for f in FIELDS:
+            fa, fb = getattr(a.heap, f), getattr(b.heap, f)
+            upd[f] = fa if fa.eq(fb) else z3.If(cond, fa, fb)
+        upd['alloc'] = a.heap.alloc if a.heap.alloc.eq(b.heap.alloc) else z3.If(cond, a.heap.alloc, b.heap.alloc)
+        pc = list(base.pc)
+        pc += [z3.Implies(cond, p) for p in extra_a if not p.eq(cond)]
+        pc += [z3.Implies(z3.Not(cond), p) for p in extra_b if not p.eq(z3.Not(cond))]
+        meta = dict(base.meta)
+        for k in set(a.meta) | set(b.meta):
+            if k in a.meta and k in b.meta and a.meta[k] is b.meta[k]:
+                meta[k] = a.meta[k]
+        return base.clone(pc=pc, env=env, heap=Heap(**upd), notes=a.notes, meta=meta)
 
     def ex_Raise(self, node, st):
         if node.exc is None:
